@@ -143,6 +143,7 @@ let tops_apply tp (ws : string list) : string =
       tops_set tp addrs tp.st.TO.tidx; "ok" end
   | ["CL"] -> tp.st <- TO.t_clear tp.st; tops_set tp tp.st.TO.trows tp.st.TO.tidx; "ok"
   | ["CP"; _] -> "ok"
+  | ["RS"; _; _] -> "ok"
   | "IU" :: cs -> let cols = Stdlib.List.map nat (fst (cols_until_colon cs [])) in
     let (s', r) = IM.add_unique_index to_ord to_reach ct tp.st.TO.tidx cols rows in
     tops_set tp rows s';
@@ -179,6 +180,16 @@ let run_table_op (t : table ref) (tp : tops) (text : string) : string =
   | "AS" :: _ :: ns -> mut (OAssign (Stdlib.List.map (fun n -> nat (int_of_string n)) ns))
   | ["CL"] -> mut OClear
   | ["CP"; _] -> mut OCopy
+  | ["RS"; _; _] -> mut OCopy                                   (* Reserve: no observable change *)
+  | "CS" :: _ :: p ->                                           (* DataTable(selection): filtered rows, no indexes *)
+    let (t1, _) = step !t (OCopyFilter (fst (parse_pred p))) in
+    let (t2, _) = step t1 ODropUnique in
+    let (t3, _) = step t2 ODropMulti in
+    t := t3;
+    ignore (tops_apply tp ("CF" :: "0" :: p)); ignore (tops_apply tp ["DU"]); ignore (tops_apply tp ["DM"]);
+    let rows_l1 = Stdlib.List.map (fun a -> Stdlib.List.map zi (tops_ct tp a)) tp.st.TO.trows in
+    let diverge = if rows_l1 <> Stdlib.List.map (Stdlib.List.map zi) t3.rows then " !MODEL-TABLEOPS rows differ" else "" in
+    Printf.sprintf "ok #%d:%d:%d%s" (Stdlib.List.length t3.rows) (table_digest t3) (tops_index_digest tp) diverge
   | "CF" :: _ :: p -> mut (OCopyFilter (fst (parse_pred p)))
   | "IU" :: cs -> mut (OAddUnique (Stdlib.List.map nat (fst (cols_until_colon cs []))))
   | "IM" :: cs -> mut (OAddMulti (Stdlib.List.map nat (fst (cols_until_colon cs []))))
